@@ -138,6 +138,18 @@ func (c *Ctx) lockOpOf(in ssa.Instruction) (lockOp, bool) {
 			return lockOp{}, false
 		}
 		name, recv = cc.Method.Name(), cc.Value
+		// m.RLocker(): Lock / Unlock of the result are RLock / RUnlock of m
+		if call, isCall := ir.Strip(recv).(*ssa.Call); isCall {
+			if f := call.Call.StaticCallee(); f != nil && f.Pkg != nil && f.Pkg.Pkg.Path() == "sync" && f.Name() == "RLocker" && len(call.Call.Args) == 1 {
+				recv = call.Call.Args[0]
+				switch name {
+				case "Lock":
+					name = "RLock"
+				case "Unlock":
+					name = "RUnlock"
+				}
+			}
+		}
 	} else {
 		fn := cc.StaticCallee()
 		if fn == nil || fn.Pkg == nil || fn.Pkg.Pkg.Path() != "sync" || len(cc.Args) == 0 {
